@@ -698,6 +698,10 @@ def gen_str(rng, maxlen, boundary=None):
         return b""
     if r < 0.14 and boundary:
         return rand_bytes(rng, boundary, rng.random() < 0.5)
+    if r < 0.22:
+        # text a person could have typed: accents, a no-break space, a zero-width space, CJK, an emoji (all valid UTF-8, no
+        # quote, backslash or control character: a KFL literal can carry it)
+        return rng.choice(["caf\u00e9", "a\u00a0b", "zero\u200bwidth", "\u65e5\u672c", "ok \U0001f600", "na\u00efve text", "\u00a0"]).encode()[:maxlen]
     if r < 0.75:
         return rand_bytes(rng, rng.randint(1, min(12, maxlen)), True)
     return rand_bytes(rng, rng.randint(0, min(40, maxlen)))
@@ -745,6 +749,12 @@ def gen_table(rng, depth=2, finite=True, maxn=4):
             continue
         keys.add(k)
         out.append((k, gen_field(rng, depth, finite)))
+    if depth >= 2 and rng.random() < 0.1 and b"deep" not in keys:
+        # a chain of tables and arrays nested far deeper than any hand-written example (the protocol sets no bound)
+        v = ("S", b"bottom")
+        for lvl in range(rng.choice([3, 7, 8, 9, 10, 16, 17, 33, 40])):
+            v = ("F", [(b"n%d" % lvl, v)]) if rng.random() < 0.6 else ("A", [v])
+        out.append((b"deep", v))
     return out
 
 
@@ -1461,6 +1471,18 @@ def c02_cases(ctx, rng=None):
     # deliver on the server half), thousands of heartbeats, thousands of small pipelined methods with their replies.
     # Every unit is reported or skipped on its own, so the cost per unit may be large; what must not happen is a cost
     # per unit that grows with the units already seen: judged by the ratio between the two sizes (c02 below).
+    # field arrays / field tables nested N and 4N deep in the arguments of one queue.declare (a frame of 5 / 7 bytes per level)
+    def nested_frame(depth, kind):
+        inner = b""
+        for _ in range(depth):
+            inner = (b"A" if kind == "A" else b"\x01kF") + len(inner).to_bytes(4, "big") + inner
+        table = (b"\x01k" + inner) if kind == "A" else inner
+        args = (50).to_bytes(2, "big") + (10).to_bytes(2, "big") + b"\x00\x00\x01q\x00" + len(table).to_bytes(4, "big") + table
+        return b"AMQP\x00\x00\x09\x01" + b"\x01\x00\x01" + len(args).to_bytes(4, "big") + args + b"\xce"
+    for kind, name, sizes in (("A", "nested-arrays", (15000, 60000)), ("F", "nested-tables", (1000, 4000))):
+        for d in sizes:
+            c = nested_frame(d, kind)
+            cases.append((case_line("%s%d" % (name, d), c, b"", ct=0, st=0), "many-%s:%d" % (name, d), len(c)))
     for nsmall in ((1500, 6000) if quick else (10000, 40000)):
         for side in "cs":
             body = bytes(rng.randrange(256) for _ in range(50)) * (nsmall // 50)
@@ -1542,6 +1564,8 @@ def c02(ctx):
             why = "%d units allocate %d bytes, %d units %d bytes: the cost of a unit grows with the units before it" % (n1, a[0], n2, b[0])
         elif b[1] > 8 * a[1] + 1500000:
             why = "%d units take %d us, %d units %d us: the cost of a unit grows with the units before it" % (n1, a[1], n2, b[1])
+        if why and shape in ("many-nested-arrays", "many-nested-tables") and ctx.is_known("amqp-nesting-cost"):
+            continue
         if why and reported < 3:
             reported += 1
             r = _replay(ctx, "amqp-c02-" + shape, b[3], b[4], why)
